@@ -509,14 +509,8 @@ theorem grows_emitBinary {env : Env} {b b' : Builder} {op : BinaryOp} {l r a : O
     subst hb0
     exact (emit_ok h).2
 
-/-- the one over-acceptance of the checker (F30): an ordering comparison of two `null` LITERALS -/
-def isNullOrdering (op : BinaryOp) (l r : Operand) : Bool :=
-  match l, r with
-  | .const x, .const y => nullOrdering op x y
-  | _, _ => false
-
 theorem visitBinaryExpression_ok {F : FloatOps} {env : Env} {b b' : Builder} {op : BinaryOp} {l r a : Operand}
-    (hlog : ∀ o, op ≠ .logical o) (hno : isNullOrdering op l r = false)
+    (hlog : ∀ o, op ≠ .logical o)
     (h : visitBinaryExpression F env b op l r = .ok (a, b')) :
     binaryType env op l.typeDesc r.typeDesc = some a.typeDesc ∧ Grows b b' := by
   by_cases hc : (∃ x, l = .const x) ∧ (∃ y, r = .const y)
@@ -527,7 +521,7 @@ theorem visitBinaryExpression_ok {F : FloatOps} {env : Env} {b b' : Builder} {op
     | ok v =>
       simp [he] at h
       obtain ⟨rfl, rfl⟩ := h
-      exact ⟨cevalBinary_type F env op x y v hlog hno he, Grows.refl _⟩
+      exact ⟨cevalBinary_type F env op x y v hlog he, Grows.refl _⟩
   · rw [visitBinary_dynamic F env b op l r hc] at h
     have hcc : (∃ k, l.typeDesc = .concrete k) ∨ (∃ k, r.typeDesc = .concrete k) := by
       by_cases hl : ∃ x, l = .const x
@@ -1021,305 +1015,6 @@ theorem interToRvalue_ok {i : Inter} {r : Res} {s s' : WState} {a : Operand} (hr
   | type t => simp [interToRvalue] at h
 
 
-/-! ### only the literal `null` has the type of `null` -/
-
-/-- every value this denotes has a concrete type -/
-def ConcreteRes (r : Res) : Prop := ∀ t, r = .val t → ∃ k, t = .concrete k
-
-theorem valueOf_concrete {r : Res} {t : Ty} (hc : ConcreteRes r) (h : valueOf r = .ok t) : ∃ k, t = .concrete k := by
-  cases r with
-  | val u => simp [valueOf] at h; subst h; exact hc _ rfl
-  | loc u k => simp [valueOf] at h; exact ⟨u, h.symm⟩
-  | prop p g => simp only [valueOf] at h; split at h <;> simp at h; exact ⟨_, h.symm⟩
-  | elem o i l =>
-    simp only [valueOf] at h
-    cases he : elemType o i with
-    | error e => simp [he, Except.map] at h
-    | ok u => simp [he, Except.map] at h; exact ⟨u, h.symm⟩
-  | methods sg => simp [valueOf] at h
-  | fn f => simp [valueOf] at h
-  | nsp n => simp [valueOf] at h
-  | type u => simp [valueOf] at h
-
-theorem concreteRes_resolveName {w : World} {sc : Scope} {n : String} {r : Res} (h : resolveName w sc n = .ok r) :
-    ConcreteRes r := by
-  intro t ht
-  subst ht
-  unfold resolveName at h
-  cases h1 : sc.find n with
-  | some p => simp [h1] at h
-  | none =>
-    simp only [h1] at h
-    cases h2 : w.objects.find? (·.1 = n) with
-    | some oc => simp [h2] at h; exact ⟨_, h.symm⟩
-    | none =>
-      simp only [h2] at h
-      have tail : ∀ {x : Except Err Res}, x = (match w.env.types.find? (·.1 = n) with
-          | some (_, t) => (Except.ok (Res.type t) : Except Err Res)
-          | none => if n = "Math" then .ok (.nsp .math) else if n = "console" then .ok (.nsp .console)
-            else if n = "qsTr" then .ok (.fn .tr) else .error .undefinedName) → x = .ok (.val t) → False := by
-        intro x hx hv
-        rw [hv] at hx
-        cases h5 : w.env.types.find? (·.1 = n) with
-        | some p => simp [h5] at hx
-        | none =>
-          simp only [h5] at hx
-          split at hx
-          · simp at hx
-          · split at hx
-            · simp at hx
-            · split at hx <;> simp at hx
-      cases h3 : w.thisObj with
-      | none => simp only [h3] at h; exact (tail rfl h).elim
-      | some tp =>
-        simp only [h3] at h
-        cases h4 : w.env.classes.find? (·.name = tp.1) with
-        | none => simp only [h4] at h; exact (tail rfl h).elim
-        | some ci =>
-          simp only [h4] at h
-          cases h6 : ci.props.find? (·.name = n) with
-          | some p => simp [h6] at h
-          | none =>
-            simp only [h6] at h
-            cases h7 : ci.methods.find? (·.1 = n) with
-            | some m => simp [h7] at h
-            | none => simp only [h7, Option.map_none] at h; exact (tail rfl h).elim
-
-theorem concreteRes_nsMember {k : Ns} {n : String} {r : Res} (h : nsMember k n = .ok r) : ConcreteRes r := by
-  intro t ht
-  subst ht
-  unfold nsMember at h
-  cases k <;> simp only at h <;> repeat' (split at h)
-  all_goals simp at h
-
-theorem concreteRes_typeMember {env : Env} {t : NamedTy} {n : String} {r : Res} (h : typeMember env t n = .ok r) :
-    ConcreteRes r := by
-  intro u hu
-  subst hu
-  unfold typeMember at h
-  repeat' (split at h)
-  all_goals (first | (simp at h; done) | (simp at h; exact ⟨_, h.symm⟩))
-
-theorem concreteRes_valueMember {env : Env} {t : Ty} {l : Bool} {n : String} {r : Res} (h : valueMember env t l n = .ok r) :
-    ConcreteRes r := by
-  intro u hu
-  subst hu
-  unfold valueMember at h
-  repeat' (split at h)
-  all_goals simp at h
-
-
-theorem arrayType_not_null {env : Env} {ts : List Ty} {t : Ty} (h : arrayType env ts = .ok t) : t ≠ .nullPointer := by
-  unfold arrayType at h
-  cases ts with
-  | nil => simp at h; subst h; simp
-  | cons u us =>
-    simp only at h
-    split at h
-    · simp at h
-    · split at h <;> simp at h
-      subst h; simp
-
-theorem unaryType_not_null {op : UnaryOp} {t u : Ty} (h : unaryType op t = some u) : u ≠ .nullPointer := by
-  cases op <;> simp only [unaryType] at h
-  · split at h <;> (try split at h) <;> simp at h <;> subst h <;> simp
-  · split at h <;> (try split at h) <;> simp at h <;> subst h <;> simp
-  · split at h <;> (try split at h) <;> simp at h <;> subst h <;> simp
-  · split at h <;> simp at h; subst h; simp [TypeDesc.bool]
-
-theorem binaryType_not_null {env : Env} {op : BinaryOp} {l r u : Ty} (h : binaryType env op l r = some u) : u ≠ .nullPointer := by
-  cases op with
-  | arith a =>
-    simp only [binaryType] at h
-    cases hc : common env l r with
-    | none => simp [hc] at h
-    | some t =>
-      simp only [hc, Option.bind_some] at h
-      split at h <;> (try split at h) <;> simp at h <;> subst h <;> simp
-  | bitwise o =>
-    simp only [binaryType] at h
-    cases hc : common env l r with
-    | none => simp [hc] at h
-    | some t =>
-      simp only [hc, Option.bind_some] at h
-      split at h <;> (try split at h) <;> simp at h <;> subst h <;> simp
-  | shift o =>
-    simp only [binaryType] at h
-    split at h
-    · rename_i hint
-      simp only [Bool.and_eq_true] at hint
-      simp only [Option.some.injEq] at h
-      subst h
-      split
-      · simp [TypeDesc.int]
-      · intro hl
-        rw [hl] at hint
-        simp [intTy] at hint
-    · simp at h
-  | logical o =>
-    simp only [binaryType] at h
-    split at h <;> simp at h
-    subst h; simp [TypeDesc.bool]
-  | cmp c =>
-    simp only [binaryType] at h
-    cases hc : common env l r with
-    | none => simp [hc] at h
-    | some t =>
-      simp only [hc, Option.bind_some] at h
-      split at h
-      · simp at h; subst h; simp [TypeDesc.bool]
-      · split at h <;> simp at h
-        subst h; simp [TypeDesc.bool]
-
-theorem callBuiltin_not_null {env : Env} {f : Builtin} {args : List Ty} {t : Ty} (h : callBuiltin env f args = .ok t) :
-    t ≠ .nullPointer := by
-  unfold callBuiltin at h
-  repeat' (split at h)
-  all_goals (first | (simp at h; done) | (simp at h; subst h; simp [TypeDesc.void, TypeDesc.string]))
-
-theorem callMethod_not_null {env : Env} {sg : List (List TypeKind × TypeKind)} {args : List Ty} {t : Ty}
-    (h : callMethod env sg args = .ok t) : t ≠ .nullPointer := by
-  unfold callMethod at h
-  split at h <;> simp at h
-  subst h; simp
-
-
-/-- in the specification only the literal `null` has the type of `null` -/
-theorem typeOf_null {w : World} {sc : Scope} {e : Expr} (h : typeOf w sc e = .ok .nullPointer) : e = .null := by
-  unfold typeOf at h
-  cases hr : resolve w sc e with
-  | error x => simp [hr, valueOfR] at h
-  | ok r =>
-    simp only [hr, valueOfR] at h
-    have conc : ConcreteRes r → False := fun hc => by
-      obtain ⟨k, hk⟩ := valueOf_concrete hc h
-      cases hk
-    have lit : ∀ t, r = .val t → t ≠ .nullPointer → False := fun t ht hne => by
-      subst ht
-      simp [valueOf] at h
-      exact hne h
-    cases e with
-    | null => rfl
-    | ident n => simp only [resolve, valueOfR_resolve] at hr; exact (conc (concreteRes_resolveName hr)).elim
-    | this =>
-      simp only [resolve, valueOfR_resolve] at hr
-      split at hr <;> simp at hr
-      exact (lit _ hr.symm (by simp)).elim
-    | integer v =>
-      simp only [resolve, valueOfR_resolve] at hr
-      split at hr <;> simp at hr
-      exact (lit _ hr.symm (by simp)).elim
-    | float v => simp only [resolve, valueOfR_resolve] at hr; simp at hr; exact (lit _ hr.symm (by simp [TypeDesc.double])).elim
-    | string v => simp only [resolve, valueOfR_resolve] at hr; simp at hr; exact (lit _ hr.symm (by simp)).elim
-    | bool v => simp only [resolve, valueOfR_resolve] at hr; simp at hr; exact (lit _ hr.symm (by simp [TypeDesc.bool])).elim
-    | array es =>
-      simp only [resolve, valueOfR_resolve] at hr
-      split at hr
-      · simp at hr
-      · rename_i ts hts
-        cases ha : arrayType w.env (ts.map strDefault) with
-        | error x => simp [ha, Except.map] at hr
-        | ok t =>
-          simp [ha, Except.map] at hr
-          exact (lit _ hr.symm (arrayType_not_null ha)).elim
-    | function => simp only [resolve, valueOfR_resolve] at hr; simp at hr
-    | member o n =>
-      simp only [resolve, valueOfR_resolve] at hr
-      split at hr
-      · simp at hr
-      · exact (conc (concreteRes_nsMember hr)).elim
-      · exact (conc (concreteRes_typeMember hr)).elim
-      · simp at hr
-      · simp at hr
-      · exact (conc (concreteRes_valueMember hr)).elim
-      · split at hr
-        · simp at hr
-        · exact (conc (concreteRes_valueMember hr)).elim
-    | subscript o i =>
-      simp only [resolve, valueOfR_resolve] at hr
-      split at hr
-      · simp at hr
-      · split at hr
-        · simp at hr
-        · split at hr
-          · simp at hr
-          · simp at hr
-            refine (conc ?_).elim
-            intro t ht
-            rw [← hr] at ht
-            cases ht
-    | call f args =>
-      simp only [resolve, valueOfR_resolve] at hr
-      split at hr
-      · simp at hr
-      · split at hr
-        · simp at hr
-        · rename_i ts _ _ sigs _
-          simp only [Except.map] at hr
-          cases hm : callMethod w.env sigs ts with
-          | error x => simp [hm] at hr
-          | ok t => simp [hm] at hr; exact (lit _ hr.symm (callMethod_not_null hm)).elim
-        · rename_i ts _ _ b _
-          simp only [Except.map] at hr
-          cases hm : callBuiltin w.env b ts with
-          | error x => simp [hm] at hr
-          | ok t => simp [hm] at hr; exact (lit _ hr.symm (callBuiltin_not_null hm)).elim
-        · simp at hr
-    | assign l r' =>
-      simp only [resolve, valueOfR_resolve] at hr
-      have : r = .val .void := by
-        repeat' (split at hr)
-        all_goals (first | (simp at hr; done) | (simp at hr; exact hr.symm))
-      exact (lit _ this (by simp [TypeDesc.void])).elim
-    | unary tok a =>
-      simp only [resolve, valueOfR_resolve] at hr
-      split at hr
-      · simp at hr
-      · split at hr
-        · simp at hr
-        · split at hr
-          · rename_i rt hu
-            simp at hr
-            exact (lit _ hr.symm (unaryType_not_null hu)).elim
-          · simp at hr
-    | binary tok l r' =>
-      simp only [resolve, valueOfR_resolve] at hr
-      split at hr
-      · simp at hr
-      · split at hr
-        · simp at hr
-        · split at hr
-          · simp at hr
-          · split at hr
-            · split at hr <;> simp at hr
-              exact (lit _ hr.symm (by simp [TypeDesc.bool])).elim
-            · split at hr
-              · rename_i t hb
-                simp at hr
-                exact (lit _ hr.symm (binaryType_not_null hb)).elim
-              · simp at hr
-    | as_ v ty =>
-      simp only [resolve, valueOfR_resolve] at hr
-      split at hr
-      · simp at hr
-      · split at hr
-        · simp at hr
-        · split at hr <;> simp at hr
-          exact (lit _ hr.symm (by simp)).elim
-    | ternary c a b =>
-      simp only [resolve, valueOfR_resolve] at hr
-      split at hr
-      · simp at hr
-      · split at hr
-        · simp at hr
-        · split at hr
-          · simp at hr
-          · split at hr
-            · simp at hr
-            · split at hr <;> simp at hr
-              exact (lit _ hr.symm (by simp)).elim
-
-
 /-! ### small steps of the walk -/
 
 theorem markBranchPoint_ok {s s' : WState} {l : Nat} (h : run markBranchPoint s = (some l, s')) : Ext s s' := by
@@ -1366,32 +1061,7 @@ theorem processTypeAnnotation_ok {c : Ctx} {cs : List String} {s s' : WState} {k
     rw [← h.1]
     cases t <;> simp [Env.findClass] <;> (split <;> simp_all)
 
-/-! ### the fragment: everything except an ordering comparison of two `null` literals (finding F30) -/
-
-def isOrderingTok : BinaryToken → Bool
-  | .lessThan | .lessThanEqual | .greaterThan | .greaterThanEqual => true
-  | _ => false
-
-def isNullLit : Expr → Bool
-  | .null => true
-  | _ => false
-
-mutual
-def nno : Expr → Bool
-  | .binary tok l r => !(isOrderingTok tok && isNullLit l && isNullLit r) && nno l && nno r
-  | .array es => nnoList es
-  | .member o _ => nno o
-  | .subscript o i => nno o && nno i
-  | .call f args => nno f && nnoList args
-  | .assign l r => nno l && nno r
-  | .unary _ a => nno a
-  | .as_ v _ => nno v
-  | .ternary c a b => nno c && nno a && nno b
-  | _ => true
-def nnoList : List Expr → Bool
-  | [] => true
-  | e :: es => nno e && nnoList es
-end
+/-! ### the statements of the induction -/
 
 def ExprSound (c : Ctx) (e : Expr) : Prop :=
   ∀ s s' sc i, Inv s sc → run (walkExpr c e) s = (some i, s') →
